@@ -1,5 +1,6 @@
 import ElaVerif.Model.Frozen
 import ElaVerif.Model.CCPolicy
+import ElaVerif.Model.PolicyCtx
 import ElaVerif.Gen.C32
 /-!
 # C32 — frozen addresses can neither spend nor receive
@@ -165,5 +166,34 @@ theorem C32_gen_context_check :
     CCPolicy.firstBefore "(*core/transaction.DefaultChecker).GetTxReference"
       "core/transaction.checkFrozenAddresses" Gen.C32.defaultContextCheckCalls = true ∧
     Gen.C32.coinbaseContextCheckCallsFrozen = false := by decide
+
+/-- the check is called with the transaction, the resolved references, the **block height of the
+    validation context** (not the chain's current height) and the configured list, in this order -/
+theorem C32_gen_call_args :
+    Gen.C32.frozenCallArgs =
+      ["t.parameters.Transaction", "references", "t.parameters.BlockHeight",
+       "t.parameters.Config.FrozenAddresses"] := by decide
+
+/-! ## through `ContextCheck` (model of the `ctx` ops: the real context check on an in-process node) -/
+
+open ElaVerif.PolicyCtx in
+/-- The context check of a block at height `h` does not pass a transaction that spends from or
+    pays to an address frozen from `e.start ≤ h` on — whatever its type, payload version and the
+    cross-chain heights. -/
+theorem C32_context_rejects (ty ver h f r : Nat) (fs : List Entry) (ins outs : List Nat) (e : Entry) (x : Nat)
+    (he : e ∈ fs) (hx : e.hash = some x) (hs : e.start ≤ h) (ht : x ∈ ins ∨ x ∈ outs) :
+    contextPolicies ty ver h f r fs ins outs ≠ .passed := by
+  unfold contextPolicies
+  cases hv : CCPolicy.ccPolicy ty ver (ins.map prefixOf) h f r <;> simp only [ne_eq, reduceCtorEq, not_false_eq_true]
+  have hne : frozenCheck fs ins outs h ≠ .ok := by
+    rcases ht with ht | ht
+    · exact C32_spend fs ins outs h e x he hx hs ht
+    · exact C32_receive fs ins outs h e x he hx hs ht
+  cases hfz : frozenCheck fs ins outs h with
+  | ok => exact absurd hfz hne
+  | spend i => simp
+  | receive i => simp
+
+example : PolicyCtx.contextPolicies 2 0 4 9 9 [⟨some 70, 4⟩] [79] [70] = .fz (.receive 0) := by decide
 
 end ElaVerif.C32
